@@ -86,6 +86,11 @@ claim('C10', 'faultx',
       'Faults are injected at the Storage interface only (the only environment seam of the library).', '§5 C10')
 C['C10']['category'] = 'fault_enumeration'
 
+claim('C17', 'devx+bfs',
+      'exhaustive enumeration of all strings up to length 2-3 over a byte/token alphabet in every substituted slot at every render site of the real handlers, judged by an independent HTML tokenizer; plus two-request histories with failing response writers',
+      'All 256 single bytes and all strings of length <= 2 (quick) / <= 3 (thorough) over a 44-symbol alphabet of bytes and multi-byte tokens, plus a length ladder up to 64 KiB, substituted as RelayState and as consumer / logout URL (embedded in an https URL and as the whole URL) at 4 render sites (callback success, callback failure, SSO late-error reply, logout). The page is tokenised with golang.org/x/net/html (shares no code with html/template): tag/attribute skeleton identical to the fixed template, exactly one form, exactly two hidden fields holding the values (NUL / invalid UTF-8 may become U+FFFD), action = URL-normalised consumer URL for http(s)/relative URLs and never a script-capable scheme after browser-style trimming, no script element. Histories: 16 site pairs x earlier writer completing or failing at write 1..4 on one provider.',
+      'The SAMLResponse slot is only covered over the base64 the IdP produces; strings outside the alphabet / longer than 3 symbols are only sampled by the ladder. Known finding: CR in RelayState.', '§5 C17')
+
 NOT_YET = {i: 'check not built yet in this revision (planned: see DESIGN.md §5 %s); not claimed until its machinery exists' % i for i in ids}
 
 def main():
